@@ -77,10 +77,20 @@ impl<Key> AdmissionPolicy<Key>
         let access_frequency = self.access_frequency.clone();
 
         thread::spawn(move || {
+            #[cfg(feature = "verif")]
+            let _verif_thread_guard = crate::cache::verif::ThreadGuard::new(crate::cache::verif::Role::Consumer);
             while let Ok(event) = receiver.recv() {
                 match event {
                     BufferEvent::Full(key_hashes) => {
+                        #[cfg(feature = "verif")]
+                        let verif_batch_len = key_hashes.len();
+                        #[cfg(feature = "verif")]
+                        crate::cache::verif::point(crate::cache::verif::Site::ConsumerBeforeApply);
                         { access_frequency.write().increment_access(key_hashes); }
+                        #[cfg(feature = "verif")]
+                        crate::cache::verif::emit(|| crate::cache::verif::Event::BatchApplied { len: verif_batch_len });
+                        #[cfg(feature = "verif")]
+                        crate::cache::verif::point(crate::cache::verif::Site::ConsumerApplied);
                     }
                     BufferEvent::Shutdown => {
                         info!("Received Shutdown event in AdmissionPolicy, shutting it down");
@@ -105,22 +115,32 @@ impl<Key> AdmissionPolicy<Key>
                                         key_description: &KeyDescription<Key>,
                                         delete_hook: &DeleteHook) -> CommandStatus
         where DeleteHook: Fn(Key) {
+        #[cfg(feature = "verif")]
+        crate::cache::verif::emit(|| crate::cache::verif::Event::AdmissionStart { key_id: key_description.id, key_hash: key_description.hash, weight: key_description.weight, max_weight: self.cache_weight.get_max_weight(), weight_used: self.cache_weight.get_weight_used() });
         if key_description.weight > self.cache_weight.get_max_weight() {
             debug!(
                 "Rejecting key with id {} and weight {}, given its weight is greater than the max cache weight {}",
                 key_description.id, key_description.weight, self.cache_weight.get_max_weight()
             );
+            #[cfg(feature = "verif")]
+            crate::cache::verif::emit(|| crate::cache::verif::Event::AdmissionOverweight { key_id: key_description.id });
             return CommandStatus::Rejected(RejectionReason::KeyWeightIsGreaterThanCacheWeight);
         }
         let (space_left, is_enough_space_available) = self.cache_weight.is_space_available_for(key_description.weight);
+        #[cfg(feature = "verif")]
+        crate::cache::verif::point(crate::cache::verif::Site::AdmissionAfterSpaceCheck);
         if is_enough_space_available {
             self.cache_weight.add(key_description);
+            #[cfg(feature = "verif")]
+            crate::cache::verif::emit(|| crate::cache::verif::Event::AdmissionFit { key_id: key_description.id });
             return CommandStatus::Accepted;
         }
         let status = self.create_space(space_left, key_description, delete_hook);
         if let CommandStatus::Accepted = status {
             self.cache_weight.add(key_description);
         }
+        #[cfg(feature = "verif")]
+        crate::cache::verif::emit(|| crate::cache::verif::Event::AdmissionEnd { key_id: key_description.id, status });
         status
     }
 
@@ -186,15 +206,21 @@ impl<Key> AdmissionPolicy<Key>
 
         let incoming_key_access_frequency = self.estimate(key_description.hash);
         let mut space_available = space_left;
+        #[cfg(feature = "verif")]
+        crate::cache::verif::emit(|| crate::cache::verif::Event::AdmissionIncomingEstimate { key_id: key_description.id, estimate: incoming_key_access_frequency, space_left });
 
         let mut sample = self.cache_weight.sample(EVICTION_SAMPLE_SIZE, frequency_counter);
         while space_available < key_description.weight {
+            #[cfg(feature = "verif")]
+            let verif_sample = if crate::cache::verif::enabled() { sample.verif_view() } else { Vec::new() };
             if let Some(sampled_key) = sample.min_frequency_key() {
                 if incoming_key_access_frequency < sampled_key.estimated_frequency {
                     debug!(
                         "Rejecting key with id {} and estimated frequency {}, given its frequency is less than the sampled key with frequency {}",
                         key_description.id, incoming_key_access_frequency, sampled_key.estimated_frequency
                     );
+                    #[cfg(feature = "verif")]
+                    crate::cache::verif::emit(|| crate::cache::verif::Event::AdmissionStep { key_id: key_description.id, sample: verif_sample, victim: Some((sampled_key.id, sampled_key.weight, sampled_key.estimated_frequency)), evicted: false, space_after: space_available });
                     return CommandStatus::Rejected(EnoughSpaceIsNotAvailableAndKeyFailedToEvictOthers);
                 }
 
@@ -202,9 +228,15 @@ impl<Key> AdmissionPolicy<Key>
                 let (fresh_space_available, _) = self.cache_weight.is_space_available_for(key_description.weight);
 
                 space_available = fresh_space_available;
+                #[cfg(feature = "verif")]
+                crate::cache::verif::emit(|| crate::cache::verif::Event::AdmissionStep { key_id: key_description.id, sample: verif_sample, victim: Some((sampled_key.id, sampled_key.weight, sampled_key.estimated_frequency)), evicted: true, space_after: space_available });
+                #[cfg(feature = "verif")]
+                crate::cache::verif::point(crate::cache::verif::Site::AdmissionAfterEvict);
                 let _ = sample.maybe_fill_in();
             } else {
                 let (_, is_enough_space_available) = self.cache_weight.is_space_available_for(key_description.weight);
+                #[cfg(feature = "verif")]
+                crate::cache::verif::emit(|| crate::cache::verif::Event::AdmissionStep { key_id: key_description.id, sample: verif_sample, victim: None, evicted: false, space_after: space_available });
                 if is_enough_space_available {
                     return CommandStatus::Accepted;
                 }
@@ -215,9 +247,20 @@ impl<Key> AdmissionPolicy<Key>
     }
 }
 
+#[cfg(feature = "verif")]
+impl<Key> AdmissionPolicy<Key>
+    where Key: Hash + Eq + Send + Sync + Clone + 'static, {
+    /// (key id, key, key hash, charged weight) of every charged key.
+    pub(crate) fn verif_charged(&self) -> Vec<(KeyId, Key, KeyHash, Weight)> { self.cache_weight.verif_entries() }
+
+    pub(crate) fn verif_access_queue_len(&self) -> usize { self.sender.len() }
+}
+
 impl<Key> BufferConsumer for AdmissionPolicy<Key>
     where Key: Hash + Eq + Send + Sync + Clone + 'static, {
     fn accept(&self, event: BufferEvent) {
+        #[cfg(feature = "verif")]
+        crate::cache::verif::point(crate::cache::verif::Site::PoolBeforeAccept);
         let size = if let BufferEvent::Full(ref key_hashes) = event {
             key_hashes.len()
         } else {
